@@ -35,12 +35,7 @@ func clockOpts(genesis time.Time) chain.Options {
 	o := nodeOpts
 	o.GenesisTime = genesis
 	o.GenesisMod = func(app *simapp.SimApp, gs simapp.GenesisState) {
-		baseGenesisMod(app, gs)
-		var sg servicetypes.GenesisState
-		app.AppCodec().MustUnmarshalJSON(gs[servicetypes.ModuleName], &sg)
-		sg.Definitions = append(sg.Definitions, servicetypes.GenOraclePriceSvcDefinition())
-		sg.Bindings = append(sg.Bindings, servicetypes.GenOraclePriceSvcBinding("stake"))
-		gs[servicetypes.ModuleName] = app.AppCodec().MustMarshalJSON(&sg)
+		baseGenesisMod(app, gs) // includes the oracle-price system service
 	}
 	return o
 }
